@@ -46,36 +46,46 @@ ASSUMPTIONS = [
     "not judged); exceptions raised by the code under test are rejections",
 ]
 TIERS = {
-    "quick": {"shards": 16, "cases": 1100, "timeout": 600},
-    "thorough": {"shards": 16, "cases": 33000, "timeout": 7200},
+    "quick": {"shards": 16, "cases": 900, "timeout": 600},
+    "thorough": {"shards": 16, "cases": 27000, "timeout": 7200},
 }
 FLOORS = {
     "quick": {
-        "programs": 3000,
-        "distinct_nontrivial": 400,
-        "layouts_box": 800,
-        "layouts_random": 800,
-        "calls:get_affine_map": 1200,
-        "evals:get_affine_map": 30000,
-        "calls:get_bound_ops": 1500,
-        "calls:get_step_ops": 2500,
-        "evals:bound_step_values": 15000,
-        "calls:all_values": 1200,
-        "calls:text_roundtrip": 1500,
-        "calls:canonicalize": 1500,
-        "evals:canonicalize": 30000,
-        "calls:from_strides": 300,
-        "calls:largest_common_contiguous_block": 300,
-        "subview_pointers_compared": 600,
+        "programs": 35000,
+        "distinct_nontrivial": 1500,
+        "layouts_box": 1700,
+        "layouts_random": 1700,
+        "calls:get_affine_map": 3300,
+        "evals:get_affine_map": 700000,
+        "calls:get_bound_ops": 11000,
+        "calls:get_step_ops": 11000,
+        "evals:bound_step_values": 90000,
+        "calls:all_values": 2900,
+        "calls:text_roundtrip": 3400,
+        "calls:canonicalize": 3400,
+        "evals:canonicalize": 1000000,
+        "calls:from_strides": 430,
+        "calls:largest_common_contiguous_block": 430,
+        "subview_pointers_compared": 1000,
     },
     "thorough": {
-        "programs": 90000,
-        "distinct_nontrivial": 2000,
-        "layouts_box": 48984,
-        "layouts_random": 24000,
-        "calls:get_affine_map": 36000,
-        "calls:largest_common_contiguous_block": 9000,
-        "subview_pointers_compared": 18000,
+        "programs": 1050000,
+        "distinct_nontrivial": 4000,
+        "layouts_box": 51000,
+        "layouts_random": 51000,
+        "calls:get_affine_map": 99000,
+        "evals:get_affine_map": 21000000,
+        "calls:get_bound_ops": 330000,
+        "calls:get_step_ops": 330000,
+        "evals:bound_step_values": 2700000,
+        "calls:all_values": 87000,
+        "calls:text_roundtrip": 102000,
+        "calls:canonicalize": 102000,
+        "evals:canonicalize": 30000000,
+        "calls:from_strides": 12900,
+        "calls:largest_common_contiguous_block": 12900,
+        "subview_pointers_compared": 30000,
+        "box_layouts_enumerated": 48984,
     },
 }
 
@@ -250,7 +260,7 @@ def view_text(lay, res, case):
         return [
             V(
                 "layout-text-roundtrip",
-                f"{text} cannot be re-parsed: {type(x).__name__}: {str(x)[:120]}",
+                f"{text} cannot be re-parsed: {type(x).__name__}: " + " ".join(str(x)[:120].split()),
                 case,
                 view="text",
                 error=type(x).__name__,
